@@ -152,7 +152,20 @@ def c11_a(ctx: Ctx):
                     if v is not None and ctx.fold(v, f) is not False:
                         out.append(ctx.viol(R, f, c, "shutil.rmtree(..., ignore_errors=True): a failed removal is reported as success, leaving a partial job directory"))
                     elif kwarg(c, "onerror") is not None or kwarg(c, "onexc") is not None:
-                        out.append(ctx.inc(R, f, c, "shutil.rmtree with an error callback: cannot decide whether errors are propagated"))
+                        hk = kwarg(c, "onexc") or kwarg(c, "onerror")
+                        hf = ctx.calls.resolve_name_to_func(f.module, hk.id, f) if isinstance(hk, ast.Name) else None
+                        if hf is None or not hf.params:
+                            out.append(ctx.inc(R, f, c, "shutil.rmtree with an error callback that cannot be resolved"))
+                        else:
+                            hcfg = ctx.cfg(hf)
+                            p0 = hf.params[0]
+                            retry = {n.id for n in hcfg.stmt_nodes() if n.kind == "stmt" and any(isinstance(x, ast.Call) and isinstance(x.func, ast.Name) and x.func.id == p0 for x in walk_no_nested(n.ast))}
+                            w = hcfg.path(hcfg.entry, {hcfg.exit}, blocked=retry, kinds="n")
+                            if w is None:
+                                out.append(ctx.ok(R, hf, hf.node, f"the rmtree error hook {hf.name} retries the failed call (or raises) on every path: a persistent error still propagates"))
+                            else:
+                                out.append(ctx.viol(R, hf, hf.node, f"the rmtree error hook {hf.name} can return without retrying the failed call and without raising: the I/O error of that entry is "
+                                                    "dropped, remove() / clear() report success and leave a half-deleted job directory", witness=hcfg.describe_path(w)))
                     else:
                         out.append(ctx.ok(R, f, c, "shutil.rmtree propagates errors"))
                 elif e == "contextlib.suppress":
